@@ -126,13 +126,20 @@ pub fn dump_navigation(h: &Hierarchy) -> String {
 
 pub fn hier(toks: &[&str]) -> String {
     let mut b = HierarchyBuilder::new(FileFormat::Vcd);
+    let mut nscopes = 0usize;
     if toks[1] != "-" {
         for op in toks[1].split(';') {
             let f: Vec<&str> = op.split(':').collect();
             match f[0] {
                 "s" => {
                     let name = b.add_string(f[1].to_string());
-                    b.add_scope(name, None, ScopeType::Module, None, None, f[2] == "1");
+                    // the kind of a scope plays no part in the tree structure (C08: sibling scopes are told apart by name
+                    // alone): every add_scope call uses another kind
+                    const KINDS: [ScopeType; 5] =
+                        [ScopeType::Module, ScopeType::Begin, ScopeType::Struct, ScopeType::VhdlArray, ScopeType::Fork];
+                    let kind = KINDS[nscopes % KINDS.len()];
+                    nscopes += 1;
+                    b.add_scope(name, None, kind, None, None, f[2] == "1");
                 }
                 "v" => {
                     // `<name>` or `<name>@<index>`
